@@ -110,6 +110,7 @@ def sub_layout(case):
     if enc == "int16":
         nd = int(case["nodata"])
         a = pix.astype("int16")
+        a[a == nd] = nd + 1 if nd < 32767 else nd - 1  # a valid cell never equals the marker (the marker may be 0)
         a[~vm] = nd
         want = np.array([np.float32(ac1d(a[k], nd)) for k in range(a.shape[0])]).reshape(ny, nx)
         attrs = {"nodata": nd}
@@ -222,8 +223,8 @@ def run(ctx):
         for _ in range(ny * nx):
             px.append(draw(gens.series(n=nt))["y"])
             vm.append(draw(acgap(nt))["valid"])
-        return {"shape": [ny, nx], "pixels": px, "valid": vm, "enc": draw(st.sampled_from(["int16", "float32", "float64"])),
-                "nodata": -32768}
+        return {"shape": [ny, nx], "pixels": px, "valid": vm, "enc": draw(st.sampled_from(["int16", "int16", "float32", "float64"])),
+                "nodata": draw(st.sampled_from([-32768, 0, -9999, 255]))}
 
     def f_lay(case):
         rec.case("layout", case, nontrivial=True, cls=["enc:" + case["enc"]])
